@@ -936,13 +936,16 @@ class Choice(Operation):
            global_state: pg.geno.AttributeDict,
            step: int = 0) -> List[Any]:
     num_performed_ops = 0
+    limit = self.limit
+    if limit is not None:
+      limit = scalars.scalar_value(limit, step)
     for op, prob in self._ops:
+      if limit is not None and num_performed_ops >= limit:
+        break
       prob = scalars.scalar_value(prob, step)
       if self._random.random() < prob:
         inputs = op(inputs, global_state=global_state, step=step)
         num_performed_ops += 1
-        if self.limit is not None and num_performed_ops == self.limit:
-          break
     return inputs
 
 
